@@ -163,7 +163,8 @@ class ExtremaEquiv(_Equiv):
         pad, parab = case['pad'], case['parab']
         X = np.array(x, dtype=float)
         scale = _scale(x)
-        gap = K._gap(x, scale, True) if n > 1 else math.inf
+        # neighbouring samples at rounding distance in x or in |x| (abs_peaks / combined); exact ties survive rescaling and reversal
+        gap = min(K._gap(x, scale, True), K._gap([abs(v) for v in x], scale, True)) if n > 1 else math.inf
         base = {m: self._gpe(x, pad, m, parab) for m in K.MODES}
         verdicts, corr = [], []
         ltol = K.TOL * max(1.0, n)
@@ -301,7 +302,8 @@ class EnvelopeEquiv(_Equiv):
         n = len(x)
         X = np.array(x, dtype=float)
         scale = _scale(x)
-        gap = K._gap(x, scale, True) if n > 1 else math.inf
+        # neighbouring samples at rounding distance in x or in |x| (abs_peaks / combined); exact ties survive rescaling and reversal
+        gap = min(K._gap(x, scale, True), K._gap([abs(v) for v in x], scale, True)) if n > 1 else math.inf
         base = {m: self._env(x, m, case) for m in K.EMODES}
         verdicts, corr = [], []
 
